@@ -223,6 +223,30 @@ fn run_probes(ctx: &fend_core::Context) -> Sx {
         .collect())
 }
 
+/// Behavioural probes: every stored variable is evaluated and applied to fixed arguments on a COPY of the context
+/// (without handlers).  Serialized images cannot show state shared between a context and its clones (scope nodes
+/// are Arc-shared); the results of these probes can.
+const APPLY: &[&str] = &["", " 1", " 1 2", " 2 3 4"];
+
+fn behaviour(ctx: &fend_core::Context) -> Vec<(String, String)> {
+    let mut out = vec![];
+    for e in hook::variables_snapshot(ctx) {
+        if e.name == "_" || e.name == "ans" {
+            continue;
+        }
+        for suffix in APPLY {
+            let input = format!("({}){}", e.name, suffix);
+            let mut c = hook::without_handlers(ctx);
+            let r = match fend_core::evaluate_with_interrupt(&input, &mut c, &fharness::NeverInt) {
+                Ok(r) => format!("o:{}", r.get_main_result()),
+                Err(m) => format!("e:{m}"),
+            };
+            out.push((input, r));
+        }
+    }
+    out
+}
+
 fn fend_result(r: &fend_core::FendResult) -> Sx {
     let spans: String = r.get_main_result_spans().map(|s| s.string().to_string()).collect();
     sx::l(vec![
@@ -303,6 +327,7 @@ fn run(op: &str, args: &[Sx]) -> Option<Sx> {
                 }));
                 let rng_calls = RNG_CALLS.load(Ordering::SeqCst);
                 let rate_calls = host.rate_calls.load(Ordering::SeqCst);
+                let ctx_for_probes = ctx.clone();
                 let vars_after = guard(|| digest_vars(&ctx));
                 let settings_after = snapshot_settings(&ctx);
                 let probes_after = guard(|| run_probes(&ctx));
@@ -312,6 +337,21 @@ fn run(op: &str, args: &[Sx]) -> Option<Sx> {
                 let rng_works = RNG_CALLS.load(Ordering::SeqCst) > c0;
                 let _ = guard(|| { let _ = fend_core::evaluate_with_interrupt("1 GBP to JPY", &mut ctx, &fharness::NeverInt); sx::a(0) });
                 let rates_work = host.rate_calls.load(Ordering::SeqCst) > rate_calls;
+                // the context that saw the preview against a twin that never did (built the same way, sharing nothing)
+                let behaviour_diff = guard(|| {
+                    let (twin, _twin_host) = make_context(flags, &setup);
+                    let (a, b) = (behaviour(&ctx_for_probes), behaviour(&twin));
+                    let mut d = vec![];
+                    for ((i, x), (_, y)) in a.iter().zip(b.iter()) {
+                        if x != y {
+                            d.push(sx::l(vec![sx::cps(i), sx::cps(x), sx::cps(y)]));
+                        }
+                    }
+                    if a.len() != b.len() {
+                        d.push(sx::l(vec![sx::s("length"), sx::a(a.len()), sx::a(b.len())]));
+                    }
+                    sx::l(vec![sx::a(a.len()), sx::l(d)])
+                });
                 per_k.push(sx::l(vec![
                     sx::a(k.map_or(-1i64, |v| v as i64)),
                     match &r {
@@ -330,6 +370,7 @@ fn run(op: &str, args: &[Sx]) -> Option<Sx> {
                     sx::a(u8::from(rng_works)),
                     sx::a(u8::from(rates_work)),
                     sx::a(p.calls_after_fire.get()),
+                    behaviour_diff,
                 ]));
             }
             sx::l(vec![sx::s("ok"), before_vars, before_settings, before_probes, reference, sx::l(per_k)])
